@@ -33,6 +33,12 @@ add('C11', 'model_checking',
     "path-exhaustive symbolic execution of the real RecipeManager on symbolic tokens; z3 (QF_UFLIA) decides state/result equality with a reference model per path",
     'DESIGN.md 3/C11')
 
+add('C10', 'model_checking',
+    "Decides the core of the statement for ALL tensor names at once: the scope string built by Calibrator._get_op_scope equals the one built by ParamsGenerator._get_op_scope for every operator shape (<=3 outputs, any absent) with symbolic z3-string tensor names; two scopes are indistinguishable by every regex iff they are equal strings. Second part (never-missing statistics, every signature): every runtime tensor looked up by the real materialize functions is written by the real calibration function of the same op, explored on the skeleton family with a fake interpreter honouring subgraph_index.",
+    "Assumes: get_tensor_name rebound to symbolic names (length<=6 over a 6-letter alphabet incl. separators); equal (op, scope) pairs resolve equally by C11; interpreter tensor contents are arbitrary (FFI not modelled).",
+    "symbolic execution of both _get_op_scope copies on z3 String names; z3 sequence theory decides equality",
+    'DESIGN.md 3/C10')
+
 def write():
   m = {
    'version': 1,
